@@ -11,6 +11,7 @@ Model of the resource-request path of the batch front end:
                                               JobPrivateInstanceManagerConfig.convert_requests_to_resources,
                                               InstanceCollectionConfigs.select_{cheapest_price_pool,pool_from_worker_type,job_private,inst_coll}
 * `batch/batch/front_end/front_end.py`        the resource block of `_create_jobs` (docker jobs), after the strings are parsed
+* `batch/batch/front_end/validate.py`         handle_deprecated_job_keys: the legacy `pvc_size` spelling of `resources.storage`
 
 Tables come from `Generated/Machines.lean`.  Python floats are replaced by exact integer arithmetic
 (`ceil((m / p) * 1000)` ↦ `⌈1000 m / p⌉`, `int((c / 1000) * p)` ↦ `⌊c p / 1000⌋`).  The price of a pool is an
@@ -267,6 +268,21 @@ def frontEnd (price : Pool → String → Nat × Nat × Nat → Nat) (locs : Lis
     else if mt ≠ "" ∧ (r.cpuMcpu.isSome ∨ r.memory.isSome) then .invalid       -- `if machine_type and (…)`: '' is falsy
     else if mt ≠ "" ∧ label ≠ "" then .invalid                                 -- `if machine_type and pool_label`
     else finish (selectInstColl price locs pools j cloud (some mt) label preemptible none 0 0 storage)
+
+/-- `validate.py: handle_deprecated_job_keys`, the `pvc_size -> resources/storage` rewrite that runs (inside
+`validate_and_clean_jobs`) before `_create_jobs`: the legacy key becomes `resources['storage']` of the job — also when the job
+has no `resources` key or an empty one; both spellings at once are a `ValidationError` (`none`) -/
+def withPvcSize (pvcSize : Option Nat) (r : Request) : Option Request :=
+  match pvcSize with
+  | none => some r
+  | some s => if r.storageBytes.isSome then none else some { r with storageBytes := some s }
+
+/-- `validate_and_clean_jobs` (storage spelling) followed by the resource block of `_create_jobs` -/
+def frontEndJob (price : Pool → String → Nat × Nat × Nat → Nat) (locs : List String) (pools : List Pool) (j : Jpim)
+    (d : Defaults) (cloud : Cloud) (pvcSize : Option Nat) (r : Request) : Answer :=
+  match withPvcSize pvcSize r with
+  | none => .invalid
+  | some r' => frontEnd price locs pools j d cloud r'
 
 /-- the block BEFORE commit 2e6787788 (`if machine_type and machine_type not in …`): kept only to document the repaired
 defect (`Props/C12.lean: empty_machine_type_is_internal_error_old`); not tied to the current code -/
